@@ -141,6 +141,13 @@ def run_row(row):
                 chk("chunked_iter/" + name, lambda: list(it.chunked_iter(mk(), n, **kw)), exp, pc)
                 if name == "list":
                     chk("chunked(count)/" + name, lambda: it.chunked(mk(), n, 2, **kw), out[:2])
+                if name == "bytes":
+                    # other byte containers are sequences of ints like any list: chunks are lists of ints
+                    raw = mk()
+                    kwb = {} if fill == -1 else {"fill": ord(CH[fill])}
+                    pb = lambda r: [[RCH.get(chr(b_), -999) for b_ in c_] for c_ in r]
+                    chk("chunked/bytearray", lambda: it.chunked(bytearray(raw), n, **kwb), out, pb)
+                    chk("chunked_iter/memoryview", lambda: list(it.chunked_iter(memoryview(raw), n, **kwb)), out, pb)
             else:
                 if name in ("bytes",):
                     continue
